@@ -113,7 +113,10 @@ JudgeRemoveEmpty(r) ==
 
 (* ---- resolve_syntatic_sugar : C06 ---- *)
 JudgeSugar(r) ==
-    IF r.exc # "" THEN Verdict(r.id, "REJECT", "Total", 0, TRUE, FALSE, r.exc)
+    IF r.flags.malformed THEN      \* tuple target / async comprehension: must be refused with ValueError
+        (IF r.exc = "ValueError" THEN Verdict(r.id, "ACCEPT", "malformed-refused", 0, TRUE, FALSE, "")
+         ELSE Verdict(r.id, "REJECT", "MalformedNotRefused", 0, TRUE, FALSE, r.exc))
+    ELSE IF r.exc # "" THEN Verdict(r.id, "REJECT", "Total", 0, TRUE, FALSE, r.exc)
     ELSE
     LET in == r.in  out == r.out
         refs == RefVals(in)
